@@ -469,3 +469,48 @@ VARIANTS["C05"] = [
     V("kfilt-forgets-gain", "fire", VO, [("        xf = xf[ntr_pad:-ntr_pad, :]\n    return xf * gain\n\n\ndef saturation", "        xf = xf[ntr_pad:-ntr_pad, :]\n    return xf\n\n\ndef saturation")], ("D5",), ""),
     V("twin-positional-forwarding", "twin", VO, [("car(x=x[sel, :], collection=None, operator=operator, **kwargs)", "car(x[sel, :], None, operator, **kwargs)")], (), ""),
 ]
+
+# ------------------------------------------------------------------------------------------------ C13
+VARIANTS["C13"] = [
+    V("window-not-forwarded", "fire", WE, [(
+        "        snip, df, channel_neighbors, trough_offset=trough_offset,\n        spike_length_samples=spike_length_samples, add_nan_trace=True\n", "        snip, df, channel_neighbors, add_nan_trace=True\n")], ("D1",), "regression of F8a"),
+    V("table-args-swapped", "fire", WE, [(
+        "        max_wf,\n        trough_offset,\n        spike_length_samples,\n        seed,\n    )", "        max_wf,\n        spike_length_samples,\n        trough_offset,\n        seed,\n    )")], ("D1",),
+      "positional swap; only non-default windows differ... they always differ, but the margins are symmetric enough for the test file"),
+    V("nan-trace-not-added", "fire", WE, [("spike_length_samples=spike_length_samples, add_nan_trace=True\n", "spike_length_samples=spike_length_samples\n")], ("D1",), ""),
+    V("zero-padding", "fire", WE, [("    unit_wf_idx = np.full((nu, max_wf), -1, int)\n", "    unit_wf_idx = np.zeros((nu, max_wf), int)\n"), (
+        "    wf_idx = wf_idx[wf_idx >= 0]\n", "    wf_idx = wf_idx[np.nonzero(wf_idx)[0][0]:]\n")], ("D2",), "regression of F8b"),
+    V("trim-gt-zero", "fire", WE, [("    wf_idx = wf_idx[wf_idx >= 0]\n", "    wf_idx = wf_idx[wf_idx > 0]\n")], ("D2",), "spike index 0 dropped again"),
+    V("offset-sign", "fire", WE, [("    sample = wf_flat[\"sample\"].astype(int) + offset - i_chunk * chunksize_samples\n", "    sample = wf_flat[\"sample\"].astype(int) - offset - i_chunk * chunksize_samples\n")], ("D3",), ""),
+    V("left-margin-short", "fire", WE, [("    else:\n        offset = trough_offset\n", "    else:\n        offset = trough_offset // 2\n")], ("D3",),
+      "consistent local index, but a spike at a chunk start has no room for its pre-peak samples (negative index wraps)"),
+    V("right-margin-short", "fire", WE, [("        s0 - offset:s1 + spike_length_samples - trough_offset, :-my_sr.nsync\n", "        s0 - offset:s1 + trough_offset, :-my_sr.nsync\n")], ("D3",), ""),
+    V("rows-from-index-col", "fire", WE, [("    iw = wf_flat['waveform_index'].values\n", "    iw = wf_flat['index'].values\n")], ("D4",), "chronological instead of cluster-grouped rows"),
+    V("argsort-unstable", "fire", WE, [("    index_order_clusters = np.argsort(cluster_index, kind='stable')\n", "    index_order_clusters = np.argsort(cluster_index)\n")], ("D4",), ""),
+    V("sind-plus-trough", "fire", WE, [("        np.arange(spike_length_samples) - trough_offset\n", "        np.arange(spike_length_samples) + trough_offset\n")], ("D5",), ""),
+    V("gather-wrong-row", "fire", WE, [("        wfs[i, :, :] = arr[:, sind[i]][cind[i], :]\n", "        wfs[i, :, :] = arr[:, sind[i]][cind[0], :]\n")], ("D5",), ""),
+    V("pad-val-last-channel", "fire", UT, [("    if pad_val is None:\n        pad_val = nc\n", "    if pad_val is None:\n        pad_val = nc - 1\n")], ("D5",), "edge channels get the last real channel instead of NaN"),
+    V("allowed-non-strict", "fire", WE, [("    allowed_idx = (spike_samples > trough_offset) & (", "    allowed_idx = (spike_samples >= trough_offset) & (")], ("D6",), ""),
+    V("choice-with-replacement", "fire", WE, [("rng.choice(u_spikeidx, min(max_wf, nspikes), replace=False)", "rng.choice(u_spikeidx, min(max_wf, nspikes))")], ("D6",), "duplicate waveforms for small units"),
+    V("twin-keyword-table-call", "twin", WE, [(
+        "        max_wf,\n        trough_offset,\n        spike_length_samples,\n        seed,\n    )", "        max_wf=max_wf,\n        trough_offset=trough_offset,\n        spike_length_samples=spike_length_samples,\n        seed=seed,\n    )")], (), ""),
+    V("twin-trim-neq", "twin", WE, [("    wf_idx = wf_idx[wf_idx >= 0]\n", "    wf_idx = wf_idx[wf_idx != -1]\n")], (), ""),
+]
+
+# ------------------------------------------------------------------------------------------------ C14
+VARIANTS["C14"] = [
+    V("clamp-gt", "fire", WF, [("    idx_over = np.where(idx_all >= arr_peak.shape[1])[0]\n", "    idx_over = np.where(idx_all > arr_peak.shape[1])[0]\n")], ("D1",), "regression of F9"),
+    V("clamp-to-length", "fire", WF, [("        idx_all[idx_over] = arr_peak.shape[1] - 1  # Take", "        idx_all[idx_over] = arr_peak.shape[1]  # Take")], ("D1",), ""),
+    V("argmax-no-axis", "fire", WF, [("    indx_trace = np.argmax(max_vals, axis=1)\n", "    indx_trace = np.argmax(max_vals)\n")], ("D2",), "identical for a batch of one waveform"),
+    V("max-over-batch", "fire", WF, [("    max_vals = np.max(np.abs(arr_in[:, :]), axis=1)\n", "    max_vals = np.max(np.abs(arr_in[:, :]), axis=1) / np.max(np.abs(arr_in))\n")], ("D2",), "normalised by the batch maximum"),
+    V("noise-floor-compare", "fire", WF, [("    indx_post = np.argmax(arr_post > 0, axis=1)\n", "    indx_post = np.argmax(arr_post > 1e-6, axis=1)\n")], ("D3",), "absolute threshold: indices move when the waveform is rescaled"),
+    V("offset-amplitude", "fire", WF, [("    arr_sub = arr_peak - half_max_rep\n", "    arr_sub = arr_peak - half_max_rep + 1e-9\n")], ("D3",), ""),
+    V("tip-on-post", "fire", WF, [("    indx_tip = np.nanargmax(arr_pre, axis=1)\n", "    indx_tip = np.nanargmax(arr_post, axis=1)\n")], ("D4",), ""),
+    V("masks-swapped", "fire", WF, [("    indx_prepeak = np.where(arr_mask == 0)\n    indx_postpeak = np.where(arr_mask == 1)\n", "    indx_prepeak = np.where(arr_mask == 1)\n    indx_postpeak = np.where(arr_mask == 0)\n")], ("D4",), ""),
+    V("val-peak-axes-swapped", "fire", WF, [("    val_peak = arr_in[np.arange(0, arr_in.shape[0], 1), indx_peak, indx_trace]\n", "    val_peak = arr_in[np.arange(0, arr_in.shape[0], 1), indx_trace, indx_peak]\n")], ("D5",), ""),
+    V("swap-threshold", "fire", WF, [("(df[\"peak_to_trough_ratio\"] <= 1.5)", "(df[\"peak_to_trough_ratio\"] <= 2.5)")], ("D5",), ""),
+    V("twin-minimum-clamp", "twin", WF, [(
+        "    idx_over = np.where(idx_all >= arr_peak.shape[1])[0]\n    if len(idx_over) > 0:\n        # Todo should this raise a warning ?\n        idx_all[idx_over] = arr_peak.shape[1] - 1  # Take the last value of the waveform\n",
+        "    idx_all = np.minimum(idx_all, arr_peak.shape[1] - 1)\n")], (), ""),
+    V("twin-clamp-gt-minus-one", "twin", WF, [("    idx_over = np.where(idx_all >= arr_peak.shape[1])[0]\n", "    idx_over = np.where(idx_all > arr_peak.shape[1] - 1)[0]\n")], (), ""),
+]
